@@ -116,7 +116,9 @@ impl Sub for Duplicates {
 }
 
 /// custom keys that are distinct as strings but close to each other or to registered keys
-const NEAR_KEYS: [&str; 17] = ["", " ", "\u{0}", "customer_id", "customer_name", "customer_id ", "A", "Exp", "SUB", "iss ", "é", "e\u{301}", "a\u{0}", "aa", "ab", "nbf2", "jti_"];
+const NEAR_KEYS: [&str; 27] = ["", " ", "\u{0}", "customer_id", "customer_name", "customer_id ", "A", "Exp", "SUB", "iss ", "é", "e\u{301}", "a\u{0}", "aa", "ab", "nbf2", "jti_",
+  // look-alikes of "a", "b", "exp", "sub", "k1" for a comparison that normalises or folds case: all of them other keys
+  "\u{430}", "\u{ff41}", "\u{ff45}xp", "e\u{ff58}p", "\u{17f}ub", "s\u{fe0f}ub", "\u{212a}1", "a\u{200d}", "\u{ff42}", "b\u{fe0f}"];
 
 struct CustomReserved;
 impl CustomReserved {
@@ -152,6 +154,16 @@ fn random_op() -> BoxedStrategy<BOp> {
       if CustomReserved::is(&key) { BOp::Build } else { BOp::Set(ClaimSpec::CustomOwned(key, json!(n))) }
     }),
     1 => (any::<bool>(), gen::json_doc_value()).prop_map(|(a, v)| BOp::Set(ClaimSpec::Custom(if a { "a" } else { "b" }.to_string(), v))),
+    // a registered key through a caller-defined claim type (the trait is public) next to the library's own type for it
+    3 => (0usize..7, 0usize..1000).prop_map(|(k, n)| BOp::Set(ClaimSpec::Any(KEYS[k].to_string(), if k <= 2 { json!(format!("20{}-05-05T00:00:00Z", 30 + n % 60)) } else { json!(format!("foreign-{n}")) }))),
+    // a key that differs from an ordinary one only by characters that do not render
+    2 => (any::<u16>(), any::<u16>(), 0u8..3, 0usize..1000).prop_map(|(k, z, place, n)| {
+      const INVISIBLE: [char; 12] = ['\u{ad}', '\u{200b}', '\u{200c}', '\u{200d}', '\u{200e}', '\u{2060}', '\u{feff}', '\u{fe0f}', '\u{202a}', '\u{202c}', '\u{2066}', '\u{34f}'];
+      let base = KEYS[pick(k, 9)];
+      let z = INVISIBLE[pick(z, 12)];
+      let key = match place { 0 => format!("{base}{z}"), 1 => format!("{z}{base}"), _ => { let mut c: Vec<char> = base.chars().collect(); c.insert(1.min(c.len()), z); c.into_iter().collect() } };
+      BOp::Set(ClaimSpec::CustomOwned(key, json!(n)))
+    }),
     2 => Just(BOp::Ack),
     1 => (0u8..3).prop_map(BOp::SetPanics),
     1 => Just(BOp::BuildWithUnusableKey),
